@@ -24,6 +24,11 @@ CHECKS['C13'] = dict(engine='CH', category='model_checking', design='4/C13',
    text='Per node kind (20 walked classes, found/cross-checked by reflection) one solver-checked induction step: a node whose child slots hold fresh markers is walked by the real query_traversal; visits are exactly once per marker/nested query/node, in the order of the node\'s own to_string(), with is_table/is_target exactly on table/select-list slots, and a replacement changes exactly the visited slot. CrossHair confirms each step over all values of the symbolic presence mask, list lengths and replaced index; induction on depth extends it to all trees.',
    note='Trusted: CrossHair, slot table in harness/c13lib.py (cross-checked by reflection), node to_string() as the definition of textual order. Bounded part: list length <= 2 (quick) / 3 (thorough) per slot, uniform loops. Column-name lists and LIMIT/OFFSET constants are not treated as expression slots.')
 
+CHECKS['C18'] = dict(engine='CH', category='model_checking', design='4/C18',
+   technique='CrossHair (z3) path-splitting over node kind structure, copy flavour and a symbolic single-attribute mutation of the copy; leaves run the real copy()/__eq__/__hash__ natively',
+   text='Per node kind (26 classes): for every combination of slot presence, list length, copy()/deepcopy and every single-attribute mutation of the copy discovered by reflection (symbolic index), the copy equals and prints like the original, shares no mutable object with it, has the same attribute set, and the mutation leaves the original\'s text and tree unchanged; equality is reflexive/symmetric/consistent with printing and with !=; Result hash is defined and consistent; QueryPlan/PlanStep equality returns True for equal and False for different plans.',
+   note='Trusted: CrossHair path bookkeeping (inputs are finite-domain; each leaf is the real code run natively under NoTracing once all inputs are concrete on the path). One node kind per step; nested kinds by induction (deepcopy recurses uniformly). List lengths <= 2/3.')
+
 NA_PENDING = {}
 
 
